@@ -533,18 +533,25 @@ def r194(ctx, rep, f, ev, cg, reach):
         ok = len(cs) == 1 and "trigger_type(arg1)" in show_origin(b.origin(cs[0][1]["args"][0]))
         rep.check(ok, "R19.4", "R19.4|rdh_trigger_type_as_string", "the RDH row shows the kind of rdh.trigger_type()", p)
     # lane fault masks
+    # decided for each of the 256 values of a lane-status byte (four 2-bit lane fields: 01 warning, 10 error, 11 fatal)
     lane = {
-        "ddw0_tdt_lane_status_any_fatal": "or[Eq({b0..1=B[1:0]},0x3);Eq({b2..3=B[3:2]},0xc);Eq({b4..5=B[5:4]},0x30);Eq({b6..7=B[7:6]},0xc0)]",
-        "ddw0_tdt_lane_status_any_error": "any(B[7,5,3,1])",
-        "ddw0_tdt_lane_status_any_warning": "any(B[6,4,2,0])",
+        "ddw0_tdt_lane_status_any_fatal": (lambda v: any((v >> s_) & 3 == 3 for s_ in (0, 2, 4, 6)), "some lane field == 0b11"),
+        "ddw0_tdt_lane_status_any_error": (lambda v: v & 0xAA != 0, "some lane field has its high bit set"),
+        "ddw0_tdt_lane_status_any_warning": (lambda v: v & 0x55 != 0, "some lane field has its low bit set"),
     }
-    for fn, exp in lane.items():
+    for fn, (pred, exp) in lane.items():
         clo = U + fn + "::{closure#0}"
-        try:
-            k = ckey(ev.as_cond(ev.call_closure(("closure", clo, {}), [Bits.inp("B", 0, 8)], 0)))
-        except Exception as e:  # noqa
-            k = "unevaluable %r" % (e,)
-        rep.check(k == exp, "R19.4", "R19.4|lane-mask|%s" % fn, "%s per byte: %s" % (fn, exp), U + fn, "%s tests %s per byte, documented %s" % (fn, k, exp))
+        wrong = []
+        for v in range(256):
+            try:
+                c_ = ev.as_cond(ev.call_closure(("closure", clo, {}), [Bits.const(v, 8)], 0))
+                k = {"true": True, "false": False}.get(c_.op, ckey(c_)[:60])
+            except Exception as e:  # noqa
+                k = "unevaluable %r" % (e,)
+            if k != pred(v):
+                wrong.append((hex(v), k))
+        rep.check(not wrong, "R19.4", "R19.4|lane-mask|%s" % fn, "%s per byte: %s (256 byte values evaluated)" % (fn, exp), U + fn,
+                  "%s gives the wrong verdict for lane-status bytes %s (documented: %s)" % (fn, wrong[:6], exp))
     p = U + "ddw0_tdt_lane_status_as_string"
     try:
         k = vkey(ev.call_fn(p, [W]))
